@@ -259,6 +259,36 @@ def nondistributive_progs():
     return [e for e in out if well_typed(e)]
 
 
+def matmul_progs():
+    """x @ y with operands of different output ranks and different (overlapping, nested, disjoint) inputs"""
+    out = []
+    for (in1, sh1), (in2, sh2) in [
+        ((("i", "j"), (3, 2, 2)), (("j",), (2, 2))), ((("i", "j"), (3, 2, 2)), (("i",), (2, 2))), ((("j",), (2, 2)), (("i", "j"), (3, 2, 2))),
+        ((("i", "j"), (2, 2)), (("j",), (2,))), ((("j",), (2,)), (("i", "j"), (2, 2))), ((("i", "j"), (2, 2, 2)), (("j", "k"), (2,))),
+        ((("i",), (2, 3, 2)), (("k",), (2, 2))), (((), (3, 2, 2)), (("j",), (2, 2))), ((("k", "i"), (2, 2, 3)), (("i", "k"), (3, 2))),
+        ((("i", "j"), (3, 1, 2)), (("j",), (2, 2)))]:
+        a = leaf("ma", tuple((n, SIZES[n]) for n in in1), sh1, "real")
+        b = leaf("mb", tuple((n, SIZES[n]) for n in in2), sh2, "real")
+        e = binary("matmul", a, b)
+        if well_typed(e):
+            out.append(e)
+    return out
+
+
+def stack_hetero_progs():
+    """a Stack that stays lazy (a Number / free-variable part), reduced over an input that some part lacks"""
+    out = []
+    t = _leaf("sh_t", ("j",), (), "real")
+    u = _leaf("sh_u", ("j", "k"), (), "real")
+    zv = var("zv", ("real", ()))
+    for parts in ((num(2.0), t), (t, num(2.0)), (zv, t), (t, zv, u), (num(1.5), u)):
+        st = stack("st", parts)
+        for op in ("add", "mul", "max"):
+            out.append(reduce_(op, st, (("j", 3),)))
+            out.append(reduce_(op, st, (("st", len(parts)), ("j", 3))))
+    return [e for e in out if well_typed(e)]
+
+
 def independent_progs():
     f = leaf("fi", (("i", 2),), (), "real")
     x = var("xd", ("real", ()))
